@@ -277,7 +277,14 @@ pub fn hostile_mutate(scene: &mut Scene, r: &mut Rng, cover: &mut crate::Cover) 
                     cover.hit("hostile:extension-duplicate");
                     new_items.push(Item::Ext(e.clone()));
                 }
-                new_items.push(Item::Ext(e));
+                if r.chance(1, 4) {
+                    // the same prefix again with another URL: must be rejected (one prefix, one namespace)
+                    cover.hit("hostile:extension-duplicate-other-url");
+                    new_items.push(Item::Ext(Extension { namespace: e.namespace.clone(), url: format!("{}/v2", e.url) }));
+                }
+                // the original registration comes first: move it in front of its duplicates
+                let pos = new_items.iter().position(|it| matches!(it, Item::Ext(x) if x.namespace == e.namespace)).unwrap_or(new_items.len());
+                new_items.insert(pos, Item::Ext(e));
             }
             Item::Img(mut im) => {
                 if r.chance(1, 6) {
@@ -531,6 +538,46 @@ pub fn run(a: &Args, rep: &mut Reporter) {
             }
         }
         let judge = if mode == "c10" { Judge::Hostile } else { Judge::Conforming };
+        if mode == "c02" && idx % 4 == 1 {
+            // aim the END of the XML at / around the end of a page payload (the header's file length and the
+            // final page are computed there): a first run tells where the XML ends, the coordinate metadata
+            // string is then lengthened so that it ends at the chosen residue
+            let base = scene.coord.clone().flatten().unwrap_or_default();
+            scene.coord = Some(Some(base.clone()));
+            let d0 = Dev::empty();
+            let run0 = run_scene(&scene, d0.clone(), judge);
+            if run0.finalized {
+                let b = d0.bytes();
+                if b.len() >= 48 {
+                    let xo = u64::from_le_bytes(b[24..32].try_into().unwrap_or([0; 8]));
+                    let xl = u64::from_le_bytes(b[32..40].try_into().unwrap_or([0; 8]));
+                    let end = crate::crc::phys_to_log(xo) + xl;
+                    let target = [0u64, 1019, 1, 1016, 4][((idx / 4) % 5) as usize];
+                    let delta = (target + 1020 - end % 1020) % 1020;
+                    let mut s2 = base;
+                    for _ in 0..delta {
+                        s2.push('x');
+                    }
+                    scene.coord = Some(Some(s2));
+                    cover.hit(&format!("xml-end-residue-target:{}", target));
+                }
+            }
+        }
+        if mode == "c02" && idx % 4 == 3 {
+            // rejected points in between: what is published (record count) must still match what is stored
+            for it in scene.items.iter_mut() {
+                if let Item::Pc(pc) = it {
+                    let mut out = Vec::new();
+                    for pt in pc.points.drain(..) {
+                        if r.chance(1, 3) {
+                            out.push(bad_point(&mut r, &pc.prototype, &pt, &mut cover));
+                        }
+                        out.push(pt);
+                    }
+                    pc.points = out;
+                }
+            }
+        }
         let dev = Dev::empty();
         // one program in eight runs over a device that shortens every transfer (reads during page
         // reloads and writes): content and file must not depend on it
@@ -631,6 +678,7 @@ pub fn run(a: &Args, rep: &mut Reporter) {
                     cover.hit_num("section_start_mod1020", crate::crc::phys_to_log(pc.file_offset) % 1020);
                 }
                 cover.hit_num("xml_start_mod1020", crate::crc::phys_to_log(rd.header().phys_xml_offset) % 1020);
+                cover.hit_num("xml_end_mod1020", (crate::crc::phys_to_log(rd.header().phys_xml_offset) + rd.header().xml_length) % 1020);
             }
             if let Some(dir) = &filesdir {
                 let name = format!("{}/case_{:08}", dir, idx);
